@@ -339,6 +339,51 @@ def oracle_adv(case, ctx):
     ctx.ev.case(case, nt=True, classes=[fn + ':state', 'mode:' + case['mode'], 'prefix>=12' if case['prefix'] >= 12 else 'prefix<12'] + (['large_shape'] if max(p['shape']) >= 17 else []) + (['long_shape'] if max(p['shape']) >= 31 else []) + sorted({'api:' + a for a in rng.api}))
 
 
+# ------------------------------------------------------------------ every (length, number of rooms) combination
+
+
+def enum_sweep(tier, shard, nshards):
+    """rooms / memory_rooms along one long dimension: every length x every number of rooms that fits (wall coordinates are computed
+    from the two numbers, so a defect may sit at one particular pair); crossing: every odd length x river count"""
+    top = 160 if tier == 'quick' else 400
+    i = 0
+    for L in range(5, top + 1):
+        for r in range(1, min(24, (L - 1) // 2) + 1):
+            for fn in ('rooms', 'memory_rooms'):
+                for transposed in (False, True):
+                    i += 1
+                    if i % nshards != shard:
+                        continue
+                    shape, layout = ([L, 5], [r, 1]) if not transposed else ([5, L], [1, r])
+                    p = {'shape': shape, 'layout': layout}
+                    if fn == 'memory_rooms':
+                        p.update({'colors': ['RED', 'GREEN', 'BLUE'], 'num_beacons': 1, 'num_exits': 2})
+                    yield {'fn': fn, 'p': p, 'seed': L * 31 + r}
+    for L in range(5, (41 if tier == 'quick' else 81) + 1, 2):
+        for n in range(1, (L - 3) // 2 + 1):
+            for transposed in (False, True):
+                i += 1
+                if i % nshards != shard:
+                    continue
+                yield {'fn': 'crossing', 'p': {'shape': [L, 7] if not transposed else [7, L], 'num_rivers': n}, 'seed': L * 31 + n}
+
+
+def oracle_sweep(case, ctx):
+    fn, p, seed = case['fn'], case['p'], case['seed']
+    try:
+        s = call(fn, p, seed)
+    except ValueError as e:
+        if honourable(fn, p):
+            ctx.fail(f'{fn}({p}) seed {seed}: ValueError ("{e}") for parameters the function documents as valid', {'kind': 'refused', 'fn': fn})
+        ctx.ev.case(case, nt=False, classes=[fn + ':ValueError'])
+        return
+    d = objs.canon_state(s)
+    bad = malformed(fn, p, d)
+    if bad:
+        ctx.fail(f'{fn}({p}) seed {seed}: malformed initial state: {"; ".join(bad[:3])}', {'kind': 'malformed', 'fn': fn})
+    ctx.ev.case(case, nt=True, classes=[fn + ':state'] + (['length>=64'] if max(p['shape']) >= 64 else []))
+
+
 CHECKS = [
     Check('well_formed', oracle, strategy=strat, examples={'quick': 1000, 'thorough': 6000}, shards={'quick': 4, 'thorough': 16},
           rule='8 reset functions x parameters (valid by construction ~70%, unconstrained otherwise: shapes 1..12/16, layouts 1..4, counts from -1 past capacity, colour sets of 0..5 with/without NONE) x seeds',
@@ -346,4 +391,7 @@ CHECKS = [
     Check('adversarial_generator', oracle_adv, strategy=strat_adv, examples={'quick': 500, 'thorough': 3000}, shards={'quick': 4, 'thorough': 16},
           rule='the same functions and parameters with an adversarial Generator (legal extreme outcomes for the first 0-200 calls, cycling afterwards), also on shapes up to 33x33 and long thin ones (one dimension up to 72, thorough 130, with up to 14 rooms): well-formed state or ValueError',
           required=[f + ':state' for f in FUNCTIONS] + ['mode:low', 'mode:high', 'prefix>=12', 'large_shape', 'long_shape', 'api:integers', 'api:choice', 'api:shuffle']),
+    Check('layout_sweep', oracle_sweep, enumerate=enum_sweep, shards={'quick': 16, 'thorough': 16}, exhaustive=True,
+          rule='rooms and memory_rooms: every length 5..160 (thorough 400) x every number of rooms 1..24 that fits, both orientations; crossing: every odd length 5..41 (thorough 81) x every river count that fits; one seed each: well-formed state',
+          required=['rooms:state', 'memory_rooms:state', 'crossing:state', 'length>=64']),
 ]
